@@ -172,6 +172,22 @@ Theorem c13_text_json_same_members : forall c m,
 Proof. exact formats_same_members. Qed.
 Print Assumptions c13_text_json_same_members.
 
+(* THE FIRST SENTENCE OF THE PROPERTY: every flow message can be written in each textual form.  For EVERY mapping file
+   the loader accepts that does not declare one custom field name both as array and as scalar and that configures no
+   datetime renderer, and for EVERY message: the JSON form and the text form exist -- the formatter never reaches a
+   state where the Go code would panic -- and the JSON form is a well-formed object.  (With a datetime renderer the same holds for
+   timestamps up to the year 9999, c13_timestamp_in_range.) *)
+From GF Require Import Proofs.FormatTotalP.
+Theorem c13_every_message_serialises : forall f cs c m,
+  compile_fmt f cs = Some c -> no_datetime f -> customs_ok cs ->
+  exists j t, format_json c m = Some j /\ format_text c m = Some t /\ json_value j.
+Proof.
+  intros f cs c m Hc Hn Ho. destruct (format_json_total f cs c m Hc Hn Ho) as [Hj Ht].
+  destruct (format_json c m) as [j|] eqn:Ej; [|congruence]. destruct (format_text c m) as [t|]; [|congruence].
+  exists j, t. split; [reflexivity|]. split; [reflexivity|]. eapply format_json_valid. exact Ej.
+Qed.
+Print Assumptions c13_every_message_serialises.
+
 (* with no mapping file the general formatter IS the default formatter of Model/Render.v (the one the theorems
    c13_json_default_valid, c13_address_text_exact ... speak about), for every message, byte for byte *)
 Theorem c13_default_is_general : forall m,
@@ -228,6 +244,14 @@ Definition ex_msg : msg :=
     (msetI (msetB (msetB (msetI empty_msg cProto 6) cSrcAddr [10;0;0;1]) cDstAddr [10;0;0;2]) cTimeRecv 1700000000123000000)
     {| uNum := 1001; uVarint := true; uInt := 7; uBytes := [] |})
     {| uNum := 1001; uVarint := true; uInt := 9; uBytes := [] |}.
+(* the side conditions of c13_every_message_serialises hold for the custom fields of the example, and for the example
+   without its datetime renderer *)
+Example c13_serialises_nonvacuous :
+  customs_okb ex_customs = true /\
+  no_datetimeb {| fFields := fFields ex_afmt; fRename := fRename ex_afmt; fRender := [("cust1", "etype"); ("dst_addr", "none")];
+                  fKeys := fKeys ex_afmt |} = true.
+Proof. vm_compute. split; reflexivity. Qed.
+
 Example c13_any_config_nonvacuous :
   match compile_fmt ex_afmt ex_customs with
   | Some c =>
